@@ -53,6 +53,8 @@ fn verify_as<T: bytemuck::Pod + ZkProofData<U>, U: bytemuck::Pod>(b: &[u8]) -> S
     match bytemuck::try_from_bytes::<T>(b) {
         Err(_) => "R".into(),
         Ok(d) => {
+            // the context accessor must expose exactly the leading statement bytes of the instruction data
+            if bytemuck::bytes_of(d.context_data()) != &b[..std::mem::size_of::<U>()] { return "variant-mismatch:context_data".into() }
             let _ = take_trace();
             match d.verify_proof() {
                 Ok(()) => format!("A{}", take_trace()),
